@@ -32,9 +32,13 @@ def _run(ctx, ncases, rec):
       extra = ""
       eqs = []
       if len(sp.bodies) >= 2:
-        eqs.append(f'<connect body1="{sp.bodies[0]}" body2="{sp.bodies[1]}" anchor="0.05 0 0" active="{rng.choice(["true", "false", "true"])}"/>')
+        eqs.append(f'<connect body1="{sp.bodies[0]}" body2="{sp.bodies[1]}" anchor="0.05 0 0" active="{rng.choice(["true", "false", "true"])}" solimp="0.85 0.97 {float(rng.choice([0.001, 0.3, 3.0]))} 0.5 2"/>')
         if rng.random() < 0.5:
-          eqs.append(f'<weld body1="{sp.bodies[-1]}" body2="{sp.bodies[0]}" solref="0.03 0.8" solimp="0.8 0.95 0.01 0.4 3"/>')
+          # torquescale != 1 and an impedance width wide enough that the (random) violation is NOT saturated at dmax: the impedance
+          # depends on the norm of the 6-vector (translation, torquescale * rotation)
+          ts = float(rng.choice([1.0, 0.05, 20.0, 3.0]))
+          wd = float(rng.choice([0.01, 0.5, 2.0, 5.0]))
+          eqs.append(f'<weld body1="{sp.bodies[-1]}" body2="{sp.bodies[0]}" torquescale="{ts}" solref="0.03 0.8" solimp="0.8 0.95 {wd} 0.4 3"/>')
       hj = [j for j, t in sp.joint_types.items() if t in ("hinge", "slide")]
       if len(hj) >= 2:
         # either order (joint2 may be the model's first joint, id 0), or a single-joint equality (no joint2)
